@@ -477,6 +477,14 @@ func (h *c03Harness) frame(i int, proto, kind string) (uint16, []byte, bool) {
 			return ppp.ProtoLCP, c03Ctl(ppp.ConfRej, okID("L"), c03Opt(ppp.LCPOptAuthProto, 0xc2, 0x23, 5)), true
 		case "cnak_pap": // the client asks for PAP instead of CHAP
 			return ppp.ProtoLCP, c03Ctl(ppp.ConfNak, okID("L"), c03Opt(ppp.LCPOptAuthProto, 0xc0, 0x23)), true
+		case "cnak_zero": // boundary: the peer suggests Authentication-Protocol 0x0000
+			return ppp.ProtoLCP, c03Ctl(ppp.ConfNak, okID("L"), c03Opt(ppp.LCPOptAuthProto, 0, 0)), true
+		case "cnak_eap": // a protocol the BNG does not implement (EAP, 0xc227)
+			return ppp.ProtoLCP, c03Ctl(ppp.ConfNak, okID("L"), c03Opt(ppp.LCPOptAuthProto, 0xc2, 0x27)), true
+		case "cnak_short": // Authentication-Protocol option with a one-byte value (ignored by ProcessConfNak)
+			return ppp.ProtoLCP, c03Ctl(ppp.ConfNak, okID("L"), c03Opt(ppp.LCPOptAuthProto, 0)), true
+		case "crej_all": // the peer rejects MRU, magic and the authentication option together
+			return ppp.ProtoLCP, c03Ctl(ppp.ConfRej, okID("L"), append(append(c03Opt(ppp.LCPOptMRU, 5, 0xd4), c03Opt(ppp.LCPOptMagic, 0, 0, 0, 0)...), c03Opt(ppp.LCPOptAuthProto, 0xc2, 0x23, 5)...)), true
 		case "cnak_chap":
 			return ppp.ProtoLCP, c03Ctl(ppp.ConfNak, okID("L"), c03Opt(ppp.LCPOptAuthProto, 0xc2, 0x23, 5)), true
 		}
